@@ -93,6 +93,7 @@ type FuncContract struct {
 	Uses     []string
 	Line     int
 	Ghost    []GhostAssign
+	Trusted  bool // assumed contract on a dependency (never proved here)
 }
 
 type GhostAssign struct {
@@ -135,6 +136,7 @@ type ContractFile struct {
 	Lemmas []*Lemma
 	Ghosts []*GhostDecl
 	Axioms []*Lemma
+	Ifaces map[string]*FuncContract // "Type.Method"
 }
 
 // ---- lexer
@@ -483,7 +485,7 @@ func (p *parser) primary() Expr {
 
 // ---- contract file reader
 
-var stmtKeywords = map[string]bool{"ghost": true, "pred": true, "def": true, "func": true, "requires": true, "ensures": true,
+var stmtKeywords = map[string]bool{"iface": true, "package": true, "ghost": true, "pred": true, "def": true, "func": true, "requires": true, "ensures": true,
 	"modifies": true, "loop": true, "lemma": true, "axiom": true, "opt": true, "inline": true, "pure": true, "use": true}
 
 func readContractFile(path, pkg string) (*ContractFile, error) {
@@ -491,7 +493,7 @@ func readContractFile(path, pkg string) (*ContractFile, error) {
 	if err != nil {
 		return nil, err
 	}
-	cf := &ContractFile{Path: path, Pkg: pkg, Funcs: map[string]*FuncContract{}, Specs: map[string]*SpecFunc{}}
+	cf := &ContractFile{Path: path, Pkg: pkg, Funcs: map[string]*FuncContract{}, Specs: map[string]*SpecFunc{}, Ifaces: map[string]*FuncContract{}}
 	type stmt struct {
 		text string
 		line int
@@ -574,9 +576,15 @@ func readContractFile(path, pkg string) (*ContractFile, error) {
 			}
 			sf.Pkg = pkg
 			cf.Specs[sf.Name] = sf
+		case "package":
+			cf.Pkg = strings.TrimSpace(rest)
+			pkg = cf.Pkg
 		case "func":
 			cur = &FuncContract{Key: strings.TrimSpace(rest), Pkg: pkg, Loops: map[int]*LoopContract{}, Opts: map[string]string{}, Line: s.line}
 			cf.Funcs[cur.Key] = cur
+		case "iface":
+			cur = &FuncContract{Key: strings.TrimSpace(rest), Pkg: pkg, Loops: map[int]*LoopContract{}, Opts: map[string]string{}, Line: s.line}
+			cf.Ifaces[cur.Key] = cur
 		case "lemma", "axiom":
 			k := strings.Index(rest, ":")
 			e, err := parseExpr(rest[k+1:])
